@@ -35,9 +35,19 @@ func vc11Pool() (pool []string) {
 
 	zero, ones := vc11Magic()
 	pool = append(pool, zero, ones, vc11Twin2())
+	pool = append(pool, vc11OddNames()...)
 	sort.Strings(pool)
 
 	return pool
+}
+
+// vc11OddNames are legal DNS names that are not strict host names, plus a
+// digits-only and a 63-octet label.
+func vc11OddNames() []string {
+	return []string{
+		"_dmarc.bad.com", "a_b.com", "x-.co.uk", "-y.test", "_a-1.www.github.io", "secure_login.bad.co.uk",
+		"123.com", vc11Label63 + ".com",
+	}
 }
 
 const vc11Hex = "0123456789abcdef"
@@ -233,7 +243,7 @@ func vc11CompareHashes(got []string, want map[string]bool) (problem string) {
 
 func TestVerifC11Matcher(t *testing.T) {
 	st := vstat.New("C11", "hashprefix.matcher",
-		"rapid histories over two storages behind one Matcher (general and adult suffix): list versions over a 23-name pool "+
+		"rapid histories over two storages behind one Matcher (general and adult suffix): list versions over a 31-name pool (incl. underscore, edge-hyphen, digits-only and 63-octet labels) "+
 			"with a prefix twin per suffix and names whose digests start with 0000 and ffff (comments, blanks, duplicates, CRLF), prefix queries of 1-6 labels (pool/legacy/"+
 			"random/repeated/malformed), hosts outside the suffixes, resets; after every reset Storage.Matches is compared "+
 			"with membership for the whole pool; non-trivial = a well-formed query whose expected answer is non-empty; "+
@@ -242,7 +252,8 @@ func TestVerifC11Matcher(t *testing.T) {
 		"answer-after-reset-removed", "malformed-length", "malformed-nonhex4", "malformed-nonhex8-head", "malformed-empty-label",
 		"not-under-suffix", "matches-prefix-twin-not-listed", "text-crlf", "text-duplicate", "text-comment-only",
 		"repeated-prefix-with-zero-hash-listed", "repeated-prefix-with-ones-hash-listed", "answer-three-names-one-prefix",
-		"adjacent-prefix-of-listed-name", "storage-used-before-first-list", "list-has-line-of-255-or-more")
+		"adjacent-prefix-of-listed-name", "storage-used-before-first-list", "list-has-line-of-255-or-more",
+		"listed-name-not-a-strict-hostname-queried")
 	st.Finish(t)
 
 	pool := vc11Pool()
@@ -285,7 +296,7 @@ func TestVerifC11Matcher(t *testing.T) {
 		}
 
 		for i := range strgs {
-			lists[i] = vc11GenList(t, fmt.Sprintf("s%d.v0", i), pool, zero, ones)
+			lists[i] = vc11GenList(t, fmt.Sprintf("s%d.v0", i), pool, zero, ones, "_dmarc.bad.com", "x-.co.uk")
 			history = append(history, fmt.Sprintf("storage %d (%s) new list=%s", i, suffixes[i], vc11ShowText(lists[i].text)))
 			st.Class(lists[i].forms...)
 
@@ -341,7 +352,7 @@ func TestVerifC11Matcher(t *testing.T) {
 				i := rapid.IntRange(0, 1).Draw(t, "resetWhich")
 				prev[i] = lists[i].listed
 				before := lists[i]
-				lists[i] = vc11GenList(t, fmt.Sprintf("s%d.op%d", i, op), pool, zero, ones)
+				lists[i] = vc11GenList(t, fmt.Sprintf("s%d.op%d", i, op), pool, zero, ones, "_dmarc.bad.com", "x-.co.uk")
 				history = append(history, fmt.Sprintf("storage %d (%s) reset list=%s", i, suffixes[i], vc11ShowText(lists[i].text)))
 				st.Class(lists[i].forms...)
 
@@ -419,6 +430,13 @@ func TestVerifC11Matcher(t *testing.T) {
 					classes = append(classes, "answer-empty")
 				} else {
 					nt = fmt.Sprintf("%s|%v|%v", suffixes[i], vc11SortedKeys(q.prefs), vc11SortedKeys(want))
+					for name := range lists[i].listed {
+						if !vc11StrictHostname(name) && q.prefs[vc11Sum(name)[:4]] {
+							classes = append(classes, "listed-name-not-a-strict-hostname-queried")
+
+							break
+						}
+					}
 					byPref := map[string]int{}
 					for h := range want {
 						byPref[h[:4]]++
